@@ -160,6 +160,30 @@ _c("C12", "exploration",
    "windows on both sides, K4 unanswered connect with and without callback, K5 setters return and take effect.",
    "Timing slack: one tick (K1), two ticks (K3/K4). 'Indefinitely' is explored up to 10 virtual minutes.")
 
+_c("C13", "exploration",
+   "round-trip contract on the real serialize_value/deserialize_value/dumpb/loadb with an exact-type canonical form, stream-position and concatenation checks; out-of-domain values must be refused",
+   "contracts",
+   "Tens of thousands (thorough: millions) of recursively generated, boundary-biased values of the supported grammar incl. generated user "
+   "classes and enums are encoded and decoded by the real functions; equality is judged on a canonical form that distinguishes bool/int, "
+   "keeps NaN/inf/-0.0 at float32 precision and compares objects field by field; encodings are also concatenated. A list of out-of-domain "
+   "values must raise or round-trip exactly.",
+   "Sampling of an infinite input space; depth <= 6, containers <= 300 elements, strings <= 70000 characters in the generator.")
+_c("C14", "exploration",
+   "resource-metered execution of the decoder on hostile inputs: activation counter on deserialize_value, tracemalloc peak per input, result-type walk, wall-clock watchdog (inconclusive only)",
+   "contracts",
+   "Each hostile input (declared-length attacks in every integer width, nesting to depth 50000, wide collections, unhashable keys, "
+   "truncations and bit flips of valid encodings and of real handshake messages, every registered type id with random bodies, random bytes) "
+   "is decoded by Serializable.loadb and by the real handshake handlers and Request.message(); the logical bounds (activations <= len/2+1, "
+   "peak allocation <= 32 KiB + 512 B/byte) decide, not wall-clock.",
+   "The allocation constant was sized on the unchanged tree (worst observed ~217 B per input byte, from RecursionError tracebacks).")
+_c("C15", "exploration",
+   "round-trip contract on toJson/fromJson/dumps/loads for generated classes covering every documented annotation shape",
+   "contracts",
+   "Generated Serializable classes with 3-9 fields of the documented shapes (basic, nested object, enum, List/Set/Tuple/Dict with int/str/enum "
+   "keys) and values of the annotated types incl. empty containers, None for container fields, huge ints, NaN/inf, unicode; json.dumps must "
+   "accept toJson and both round trips must reproduce the object field for field with exact types.",
+   "Only the documented shapes are generated (one level of generics, upper-case enum names, no bytes fields).")
+
 NOT_YET = {}
 
 
